@@ -25,7 +25,7 @@ REPO = os.environ.get("YMQ_REPO", "/repo")
 ROOT = os.path.dirname(os.path.dirname(os.path.abspath(__file__)))
 
 THEOREMS = ["Ymq.C16." + t for t in (
-    "ecm_cover ecm128_cover pp1_cover pm1_cover ecm_grid_exact ecm128_grid_exact pp1_grid_exact pm1_grid_exact ecm_hits_exact pp1_hits_exact pm1_hits_exact ecm_nothing_above pp1_nothing_above pm1_nothing_above pm1_hit chirpz_coeff pp1_hit ecm_hit chebyshev_recurrence chebyshev_spec exp_modn_spec exp_modn_large_spec gcd_factors_prod rho64_proper guard_proper cumulative_products_chain check_gcd_factors_inv pm1_result_proper shrink_ring_consistent check_gcd_factor_proper rho_impl_proper ynorm_spec ynorm_compare pm1base_full_stage1 pm1base_cover pm1base_hit pm1_found pp1_found ecm_found rows_ok pm1_degree pm1_rows_eff pm1_poly_rows reported_le_effective_ecm_counter reported_le_effective_pp1_counter reported_le_effective_pm1_counter ecm_badRows pp1_badRows pm1_badRows bad_rows_miss_a_value bad_row_witnesses_prime reported_le_effective_partial_ecm reported_le_effective_partial_pp1 reported_le_effective_partial_pm1 ecm128_arms_exact walk_reported_counter walk_reported_arms arms_contiguous_ecm arms_contiguous_ecm128 arms_contiguous_pp1 arms_d1_primes_below_b1 ecm_arm_covers ecm128_arm_covers").split()]
+    "ecm_cover ecm128_cover pp1_cover pm1_cover ecm_grid_exact ecm128_grid_exact pp1_grid_exact pm1_grid_exact ecm_hits_exact pp1_hits_exact pm1_hits_exact ecm_nothing_above pp1_nothing_above pm1_nothing_above pm1_hit chirpz_coeff pp1_hit ecm_hit chebyshev_recurrence chebyshev_spec exp_modn_spec exp_modn_large_spec gcd_factors_prod rho64_proper guard_proper cumulative_products_chain check_gcd_factors_inv pm1_polyeval_inv pm1_result_proper shrink_ring_consistent check_gcd_factor_proper rho_impl_proper ynorm_spec ynorm_compare pm1base_full_stage1 pm1base_cover pm1base_hit pm1_found pp1_found ecm_found rows_ok pm1_degree pm1_rows_eff pm1_poly_rows reported_le_effective_ecm_counter reported_le_effective_pp1_counter reported_le_effective_pm1_counter ecm_badRows pp1_badRows pm1_badRows bad_rows_miss_a_value bad_row_witnesses_prime reported_le_effective_partial_ecm reported_le_effective_partial_pp1 reported_le_effective_partial_pm1 ecm128_arms_exact walk_reported_counter walk_reported_arms arms_contiguous_ecm arms_contiguous_ecm128 arms_contiguous_pp1 arms_d1_primes_below_b1 ecm_arm_covers ecm128_arm_covers").split()]
 HYPOTHESES = [
     "C17 (stage-1 exponent coverage): the exponent E accumulated by stage 1 is divisible by every prime power below B1 "
     "(and by every prime <= B1 for P-1/P+1); enters pm1_hit / pp1_hit / ecm_hit as the premise `group order of p divides E*m`",
@@ -189,7 +189,13 @@ def nearest(consumer, b2):
     return best
 
 
-THRESHOLD = 80000          # MULTIEVAL_THRESHOLD; compared with the real value by the `s2_threshold` request
+def _threshold():
+    """MULTIEVAL_THRESHOLD, read from the source like the translator does (a retune must not look like a defect)"""
+    m = re.search(r"const MULTIEVAL_THRESHOLD: f64 = ([0-9.e_]+);", open(os.path.join(REPO, "src/pollard_pm1.rs")).read())
+    return int(round(float(m.group(1).replace("_", ""))))
+
+
+THRESHOLD = _threshold()   # also compared with the real value by the `s2_threshold` request
 
 
 def phi(n):
@@ -698,6 +704,68 @@ def pp1_annotation_ok(case):
             and jacobi(seed * seed - 4, p) == -1 and lucas_v(seed, (p + 1) // l, p) != 2)
 
 
+def edge_targets(d1, d2):
+    """primes l reached through exactly one (giant, baby) pair at the rim of the grid: {class: [l, ..]}.
+    Uniqueness: no multiple k*l (k > 1 coprime to d1) fits under the grid, i.e. l > maxv / kmin."""
+    bs = [b for b in range(1, d1 // 2) if math.gcd(b, d1) == 1]
+    bmax = bs[-1]
+    kmin = 2
+    while math.gcd(kmin, d1) != 1:
+        kmin += 1
+    maxv = d2 * d1 + d1 // 2
+    lo_i = maxv // kmin // d1 + 1
+    out = {"b1": [], "bmax": [], "i1": [], "id2": [], "id2m1": []}
+    for i in range(lo_i, d2 + 1):
+        for sg in (1, -1):
+            for name, b in (("b1", 1), ("bmax", bmax)):
+                l = i * d1 + sg * b
+                if l * kmin > maxv and is_prime(l):
+                    out[name].append(l)
+    for name, i in (("i1", 1), ("id2", d2), ("id2m1", d2 - 1)):
+        for b in bs:
+            for sg in (1, -1):
+                l = i * d1 + sg * b
+                if is_prime(l) and (i == 1 or l * kmin > maxv):
+                    out[name].append(l)
+    return out
+
+
+ECM_EDGE_PLANS = {1: [(200, 7700), (600, 20000), (2000, 81000), (5000, 2300000), (10000, 4700000), (10000, 9500000)],
+                  -1: [(16, 660), (50, 1920), (180, 7700), (600, 20000), (1500, 81000)]}
+
+
+def ecm_edge_search(rng, a, plan, per, attempts):
+    """directed ECM cases: the missing prime l sits on the rim of the grid of the row (first/last baby step, first/last
+    giant steps) and is reached through that single pair only; p is searched near small multiples of l (Hasse interval)"""
+    b1, b2 = plan
+    lab, d1, d2 = nearest("ecm", b2)
+    tg = {k: [l for l in v if l >= b1] for k, v in edge_targets(d1, d2).items()}
+    got = {k: 0 for k in tg}
+    for _ in range(attempts):
+        open_ = [k for k in tg if tg[k] and got[k] < per]
+        if not open_:
+            break
+        cls = rng.choice(open_)
+        l = rng.choice(tg[cls])
+        c = rng.choice([4, 4, 8, 8, 12, 16, 20, 24]) * l
+        w = 2 * math.isqrt(c)
+        p = next_prime(c - w + rng.randrange(2 * w))
+        if a == -1 and p % 4 != 1:
+            continue
+        for pt in ECM_POINTS[a]:
+            o = point_order(pt[0], pt[1], a, p)
+            if o is None or o % l or split_order(o, b1) != l:
+                continue
+            q = ecm_strong_q(rng, a, pt)
+            if p == q:
+                continue
+            got[cls] += 1
+            op = "s2_ecm" if a == 1 else "s2_ecm128"
+            yield Case(f"{op} {p * q} {pt[0]} {pt[1]} {b1} {b2} {p} {l}", tag=f"ecm/edge-{cls}")
+            break
+
+
+
 def ecm_annotation_ok(case):
     """the annotations of an ECM request, recomputed: p | n prime, order of the point mod p = s*l as claimed"""
     n, x, y, b1, b2, p, l = (int(v) for v in case.args[:7])
@@ -809,6 +877,20 @@ def big_b1_cases(tier, rng, extended=False):
                     break
             if p1 and p2 and p1 != p2:
                 yield Case(f"s2_pm1x {p1 * p2 * big_q(rng, 90) * big_q(rng, 100)} {b1} {b2} {p1} {p2} {l}", tag="shrink")
+    # every prime factor caught at the same step: nothing may be returned (n itself is not a factor)
+    yield Case("s2_pm1same 26881623424511 100 200000 100003", tag="same")           # commit 9b94f92
+    yield Case("s2_pm1same 26881623424511 100 40000 100003", tag="same")
+    for (b1, b2) in [(600, 100000), (600, 40000), (2000, 8300000)]:
+        if b2 > THRESHOLD:
+            lab, d1, d2 = nearest("pm1", b2)
+            top = pm1_eff(d1, d2)
+        else:
+            top = b2
+        for _ in range(2 if tier == "quick" else 6):
+            l = prev_prime(rng.randrange(b1 + 2, top))
+            pa, pb = make_pm1_prime(rng, b1, l), make_pm1_prime(rng, b1, l)
+            if pa and pb and pa != pb:
+                yield Case(f"s2_pm1same {pa * pb} {b1} {b2} {l}", tag="same")
     for fn, op in (("pm1_only", "s2_pm1_only"), ("pm1_quick", "s2_pm1_quick")):
         for (lo, hi, b1, b2) in arm_table(fn):
             if lo > bits_max or b1 < 10000 or b1 > (1 << 20 if tier == "quick" else 8000000) or \
@@ -1080,6 +1162,10 @@ def cases(tier, rng, extended=False):
     yield from rho_cases(rng, 250 * scale)
     yield from pm1base_cases(rng, 300 * scale)
     yield from ecm_search(rng, (600 if tier == "quick" else 120000) * (3 if extended else 1), per_class=2 if tier == "quick" else 16)
+    # directed rim cases (b = 1, b_max, i = 1, d2 - 1, d2): small rows here, every row class in corpus/C16/ecm_edges.txt
+    for a_, plans in ECM_EDGE_PLANS.items():
+        for plan in (plans[:1] if tier == "quick" and not extended else plans):
+            yield from ecm_edge_search(rng, a_, plan, 1 if tier == "quick" else 3, 20000 if tier == "quick" else 300000)
 
 
 def corpus_case(line):
@@ -1193,10 +1279,12 @@ def oracle(case, ans):
         lab = nearest("pm1", b2)[0]
         if ans.split(" ")[0] != str(lab):
             return f"not the nearest row label {lab}"
-        if lab > b2:
+        if lab > b2 and b2 <= THRESHOLD:
             _dyn_bad.add(f"stage2-label:pm1walk:{lab}:{b2}")
             return (f"pm1_impl(b2 = {b2}) reports B2 = {lab} but the prime walk stops at the first prime above {b2}")
         return None
+    if op == "s2_pm1same":
+        return check_split(int(a[0]), ans)           # refuses [n] as a "factor"; a genuine split would be fine too
     if op == "s2_pm1x":
         n, b1, b2, p1, p2, l = (int(x) for x in a[:6])
         msg = check_split(n, ans)
